@@ -89,6 +89,7 @@ func C14(ctx *core.Ctx) {
 	if !r.OK() {
 		return
 	}
+	fullReads(ctx, r, "C14.R16")
 	ctx.Rule("C14.R1", "write mutex: every output-protocol write/flush of the processor runtime happens with writeMu held; released on all exits; not re-acquired by a callee", 14)
 	ctx.Rule("C14.R3", "exactly one reply: unknown-method branch consumes the arguments then writes exactly one EXCEPTION(UNKNOWN_METHOD) message in protocol order; SendReply/sendError write one message in order", 3)
 	ctx.Rule("C14.R5", "per-message buffers: NATS processFrame and the HTTP handler allocate the protocols' transports per invocation", 4)
